@@ -36,6 +36,7 @@ type genCfg struct {
 	ineqSuffix  string // appended to the inequality variable's name (run-specific names defeat process-wide caches)
 	ineqOften   bool
 	propWrites  bool // scripts may write their (copied) step properties
+	multiCand   bool // patterns that match in several ways, with guards that accept some candidates (outcome may be arbitrary)
 }
 
 var constVals = []interface{}{1.0, 2.0, "x", "y", true, nil, 1.5}
@@ -67,6 +68,10 @@ var varNames = []string{"?v", "?w"}
 
 var ineqName = "?<n"
 
+// genMultiCand: whether the current program may use patterns with several
+// candidates (set by genSpec from its configuration; also steers genMessage).
+var genMultiCand = false
+
 func genMsgPattern(c *sim.Ctx, keys []string, ineq bool) interface{} {
 	if c.Chance(1, 12, "scalarpat") {
 		// a bare scalar pattern (a null pattern is "no pattern" and is generated as such)
@@ -76,7 +81,7 @@ func genMsgPattern(c *sim.Ctx, keys []string, ineq bool) interface{} {
 	p := map[string]interface{}{}
 	for i := 0; i < n; i++ {
 		k := keys[c.Intn(len(keys), "patkey")]
-		switch c.Intn(11, "patval") {
+		switch c.Intn(12, "patval") {
 		case 0, 1, 2:
 			p[k] = genConst(c)
 		case 3, 4, 5:
@@ -95,6 +100,16 @@ func genMsgPattern(c *sim.Ctx, keys []string, ineq bool) interface{} {
 			p[k] = map[string]interface{}{"p": "?v"}
 		case 10:
 			p[k] = []interface{}{1.0}
+		case 11:
+			// matches in several ways against an array of scalars
+			if genMultiCand {
+				p[k] = []interface{}{"?v"}
+				if c.Bool("arrconst") {
+					p[k] = []interface{}{2.0, "?v"}
+				}
+			} else {
+				p[k] = "?v"
+			}
 		}
 	}
 	return p
@@ -105,11 +120,17 @@ func genMessage(c *sim.Ctx) interface{} {
 		return genConst(c)
 	}
 	m := map[string]interface{}{}
+	if genMultiCand && c.Chance(1, 4, "msgarrA") {
+		m["a"] = [][]interface{}{{1.0, 2.0, 3.0}, {2.0, "x"}, {"x", "y", 2.0}, {3.0, 1.0}}[c.Intn(4, "msgarrAval")]
+		return m
+	}
 	n := 1 + c.Intn(3, "msgkeys")
 	for i := 0; i < n; i++ {
 		k := msgKeys[c.Intn(len(msgKeys), "msgkey")]
 		if c.Chance(1, 6, "msgnest") {
 			m[k] = map[string]interface{}{"p": genConst(c)}
+		} else if genMultiCand && c.Chance(1, 6, "msgarr") {
+			m[k] = [][]interface{}{{1.0, 2.0, 3.0}, {2.0, "x"}, {"x", "y", 2.0}, {1.0}}[c.Intn(4, "msgarrval")]
 		} else {
 			m[k] = genConst(c)
 		}
@@ -128,7 +149,7 @@ func genAction(c *sim.Ctx, cfg genCfg, names []string, guard bool) *ref.Action {
 	n := 1 + c.Intn(4, "nops")
 	seq := 0
 	for i := 0; i < n; i++ {
-		k := c.Intn(16, "opkind")
+		k := c.Intn(17, "opkind")
 		switch {
 		case k <= 2:
 			if guard && !cfg.guardEmits {
@@ -173,6 +194,10 @@ func genAction(c *sim.Ctx, cfg genCfg, names []string, guard bool) *ref.Action {
 			if cfg.failOps && !a.Native {
 				a.Ops = append(a.Ops, ref.Op{Kind: "emitbad"})
 			}
+		case k == 16:
+			if guard {
+				a.Ops = append(a.Ops, ref.Op{Kind: "require", K: "?v", V: []interface{}{1.0, 2.0, 3.0, "x", "y"}[c.Intn(5, "reqval")]})
+			}
 		case k == 15:
 			if cfg.propWrites && !a.Native {
 				a.Ops = append(a.Ops, ref.Op{Kind: "propset"})
@@ -188,6 +213,7 @@ func genAction(c *sim.Ctx, cfg genCfg, names []string, guard bool) *ref.Action {
 
 func genSpec(c *sim.Ctx, cfg genCfg) *ref.Spec {
 	ineqName = "?<n" + cfg.ineqSuffix
+	genMultiCand = cfg.multiCand
 	nn := 2 + c.Intn(cfg.maxNodes-1, "nnodes")
 	names := make([]string, nn)
 	for i := range names {
@@ -246,6 +272,12 @@ func genSpec(c *sim.Ctx, cfg genCfg) *ref.Spec {
 		case 3, 4, 5, 6: // message node
 			n.HasBr = true
 			n.Type = "message"
+			if cfg.guards && cfg.multiCand && c.Chance(1, 4, "selective") {
+				// a pattern that matches in several ways, and a guard that accepts one of them
+				n.Branches = append(n.Branches, &ref.Branch{HasPat: true, Pattern: map[string]interface{}{"a": []interface{}{"?v"}},
+					Guard:  &ref.Action{Ops: []ref.Op{{Kind: "require", K: "?v", V: []interface{}{1.0, 2.0, 3.0, "x"}[c.Intn(4, "selval")]}, {Kind: "set", K: "n", V: "picked"}}},
+					Target: target()})
+			}
 			genBranches(n, msgKeys, true)
 		case 7:
 			if cfg.loops && c.Bool("bindingsnode") {
@@ -351,6 +383,8 @@ func renderJS(a *ref.Action) string {
 			sb.WriteString("return function() { return 1; };\n")
 		case "retdate":
 			sb.WriteString("return new Date(0);\n")
+		case "require":
+			fmt.Fprintf(&sb, "if (bs[%s] !== %s) { return null; }\n", jsLit(op.K), jsLit(op.V))
 		case "propset":
 			sb.WriteString("_.props.seen = (_.props.seen || 0) + 1; _.props.mid = \"rewritten\";\n")
 		case "tick":
@@ -396,10 +430,14 @@ func nativeAction(a *ref.Action) *core.FuncAction {
 				w[op.K] = ref.CopyVal(op.V)
 			case "setfrom":
 				if v, ok := w[op.K2]; ok {
-					w[op.K] = ref.CopyVal(v)
+					w[op.K] = v
 				}
 			case "nest":
 				ref.NestInto(w[op.K], op.K2, op.V)
+			case "require":
+				if v, ok := w[op.K]; !ok || ref.Canon(v) != ref.Canon(op.V) {
+					return exe, nil
+				}
 			case "del":
 				delete(w, op.K)
 			case "clear":
